@@ -47,11 +47,25 @@ type eventFields struct {
 	Type           string         `json:"type"`
 	StateKey       *string        `json:"state_key"`
 	Content        spec.RawJSON   `json:"content"`
-	Redacts        string         `json:"redacts"`
+	Redacts        optionalString `json:"redacts"`
 	Depth          int64          `json:"depth"`
 	Unsigned       spec.RawJSON   `json:"unsigned,omitempty"`
 	OriginServerTS spec.Timestamp `json:"origin_server_ts"`
 	//Origin         spec.ServerName `json:"origin"`
+}
+
+// optionalString is a string member that no redaction algorithm keeps at the
+// top level of an event. A value of another JSON type is read as the absent
+// value: such a member is redactable material like any unknown key, and must
+// not make the whole event undecodable.
+type optionalString string
+
+func (s *optionalString) UnmarshalJSON(data []byte) error {
+	var str string
+	if err := json.Unmarshal(data, &str); err == nil {
+		*s = optionalString(str)
+	}
+	return nil
 }
 
 var emptyEventReferenceList = []eventReference{}
@@ -110,7 +124,8 @@ func checkUntrustedEventShape(eventJSON []byte) error {
 		Content    map[string]spec.RawJSON           `json:"content"`
 		Signatures map[string]map[KeyID]spec.RawJSON `json:"signatures"`
 	}
-	if err := json.Unmarshal(eventJSON, &shape); err != nil {
+	// (exact names: a member called "Content" or "SIGNATURES" is an unknown key)
+	if err := unmarshalExact(eventJSON, &shape); err != nil {
 		return fmt.Errorf("gomatrixserverlib: malformed event content or signatures: %w", err)
 	}
 	return nil
